@@ -29,16 +29,19 @@ def run_check(tier, seed, replay=None):
     wd = workdir("c14")
     if replay:
         seed = json.load(open(replay)).get("seed", seed)
-    r = mc("Concurrency", wd, constants={"Threads": "{1, 2, 3}", "Inputs": "{1, 2}", "K": 3, "SharedCells": "{}"},
-           invariants=["Deterministic"], must_cover=["Start", "Work", "Finish"])
-    c.add_model(r, "3 threads x 2 inputs x 3 internal steps, no shared mutable cells: every interleaving")
-    # negative self-test of the model: one shared cell must yield the race
-    cfg = os.path.join(wd, "neg.cfg")
-    write_cfg(cfg, constants={"Threads": "{1, 2}", "Inputs": "{1, 2}", "K": 2, "SharedCells": "{1}"}, invariants=["Deterministic"])
-    neg = tlc("Concurrency", cfg, os.path.join(wd, "neg"), coverage=False)
-    if neg["ok"]:
-        raise ToolError("the negative configuration of Concurrency.tla (one shared cell) found no race")
-    c.note("negative model (one shared cell) yields the expected counterexample")
+    r = mc("Concurrency", wd, constants={"Threads": "{1, 2, 3}", "Inputs": "{1, 2}", "K": 2, "Calls": 2, "SharedCells": "{}", "Retained": "{}"},
+           invariants=["Deterministic"], must_cover=["Start", "Work", "Finish"], workers=8)
+    c.add_model(r, "3 threads x sequences of 2 calls x 2 inputs x 2 internal steps, no shared and no retained cells: every "
+                   "interleaving and every history")
+    # negative self-tests of the model: one shared cell must yield the race, one retained cell the history dependence
+    for name, consts, what in (
+            ("shared", {"Threads": "{1, 2}", "Inputs": "{1, 2}", "K": 2, "Calls": 1, "SharedCells": "{1}", "Retained": "{}"}, "one shared cell"),
+            ("retained", {"Threads": "{1}", "Inputs": "{1, 2}", "K": 1, "Calls": 2, "SharedCells": "{}", "Retained": "{1}"}, "one cell retained by the thread")):
+        cfg = os.path.join(wd, "neg_%s.cfg" % name)
+        write_cfg(cfg, constants=consts, invariants=["Deterministic"])
+        if tlc("Concurrency", cfg, os.path.join(wd, "neg_" + name), coverage=False)["ok"]:
+            raise ToolError("the negative configuration of Concurrency.tla (%s) found no counterexample" % what)
+        c.note("negative model (%s) yields the expected counterexample" % what)
     hyp = inventory()
     c.cov["hypothesis_monitor"] = hyp
     stress = tier == "thorough" or bool(hyp)
@@ -54,12 +57,15 @@ def run_check(tier, seed, replay=None):
         c.cov["states"] += states
         c.cov["transitions"] += states
         evs = list(read_ndjson(tr))
-        c.cov["evaluations"] += sum(1 for x in evs if x["e"] in ("Seq", "End"))
-        hashes.append({(x["fn"], x["x"]): x["hash"] for x in evs if x["e"] == "Seq"})
+        c.cov["evaluations"] += sum(1 for x in evs if x["e"] in ("Fresh", "Seq", "End"))
+        hashes.append({(x["fn"], x["x"]): x["hash"] for x in evs if x["e"] in ("Fresh", "Seq")})
         for x in rej:
             ev = x["event"]
-            c.violation("conc:%s" % ev.get("fn"), "a concurrent call returned a result different from the sequential "
-                        "reference: %s" % json.dumps(ev), {"kind": "conc", "seed": seed, "event": ev})
+            how = {"Seq": "on the main thread after other calls", "End": "in a history thread after other calls" if ev.get("round") == -2
+                   else "beside other calls"}.get(ev.get("e"), "")
+            c.violation("conc:%s:%s" % (ev.get("fn"), "history" if ev.get("round") == -2 or ev.get("e") == "Seq" else "concurrent"),
+                        "a call %s returned a result different from the same call on a thread of its own: %s" % (how, json.dumps(ev)),
+                        {"kind": "conc", "seed": seed, "event": ev})
         if proc == 0:
             c.sample([x for x in evs if x["e"] == "End"][:3])
     c.cov["distinct_nontrivial"] = len(hashes[0])
@@ -67,7 +73,10 @@ def run_check(tier, seed, replay=None):
         diff = [k for k in hashes[0] if hashes[0][k] != hashes[1].get(k)]
         c.violation("conc:process", "two processes computed different results for the same inputs: %s" % diff[:5],
                     {"kind": "conc", "seed": seed, "diff": [list(k) for k in diff[:5]]})
-    return c.finish(rule="evaluations = calls of expand/recreate/decompress/recompress: a sequential reference per "
-                         "(function, input), then 16 threads released together by a barrier (same call; same function "
-                         "on distinct inputs; random mixes), each result compared with the reference by Trace_Conc; "
-                         "a second process must reproduce the reference hashes; non-trivial = distinct (function, input)")
+    return c.finish(rule="evaluations = calls of expand / recreate / decompress / recompress / compress_zstd / decompress_zstd: "
+                         "a reference per (function, input) computed on a thread of its own; the same calls one after the "
+                         "other on the main thread; three long-lived threads running every call twice in orders of their "
+                         "own (inputs include a file over 4 MiB and streams of one text under four window sizes); then 16 "
+                         "threads released together by a barrier (same call; same function on distinct inputs; random "
+                         "mixes); every result compared with the reference by Trace_Conc; a second process must "
+                         "reproduce the reference hashes; non-trivial = distinct (function, input)")
